@@ -40,6 +40,7 @@ type BStep struct {
 	In     []json.RawMessage `json:"in"`
 	Impl   string            `json:"impl"`
 	Raw    []byte            `json:"raw,omitempty"`
+	Canned []byte            `json:"canned,omitempty"` // api call against a foreign peer that answers with this frame
 	Reply  BReply            `json:"reply"`
 	Recvs  int               `json:"recvs"`
 }
